@@ -255,6 +255,15 @@ pub fn enumerate_singles(b: &Base, seed: u64, thorough: bool) -> Vec<Fault> {
             format!("{}.0", v),
             format!("{}e3", v),
             format!("00000000000000000000000000000000{}", v),
+            // valid UTF-8, non-ASCII "digits" and friends
+            format!("{}\u{660}", v),
+            "\u{ff12}\u{ff14}\u{ff10}".to_string(),
+            "\u{ff12}".to_string(),
+            "\u{bd}".to_string(),
+            "\u{967}\u{968}".to_string(),
+            format!("\u{663}{}", v),
+            format!("{}\u{200b}", v),
+            format!("{}\u{e9}", v),
         ];
         for rep in reps {
             if rep.as_bytes() != &bytes[n.start..n.end] {
@@ -392,6 +401,25 @@ pub fn enumerate_singles(b: &Base, seed: u64, thorough: bool) -> Vec<Fault> {
                 t.push_str("}\n");
                 mk(t.into_bytes(), &mut out, "stress_deep_tree");
             }
+            for depth in [40usize, 90, 400] {
+                let mut t = String::from("QS Q1 { \"*-a+*\" }\n\n{*}[2]\n{\n");
+                for k in 0..depth {
+                    let next = if k + 1 < depth { format!("-{}", k + 1) } else { "\"x_1\"".to_string() };
+                    t.push_str(&format!(" {} Q1 {} {} \n", if k == 0 { "0".to_string() } else { format!("-{}", k) }, next, next));
+                }
+                t.push_str("}\n");
+                mk(t.into_bytes(), &mut out, "stress_ladder_tree");
+            }
+            {
+                // a cycle: the last node points back at the root
+                let mut t = String::from("QS Q1 { \"*-a+*\" }\n\n{*}[2]\n{\n");
+                for k in 0..6 {
+                    let next = if k + 1 < 6 { format!("-{}", k + 1) } else { "0".to_string() };
+                    t.push_str(&format!(" {} Q1 \"x_1\" {} \n", if k == 0 { "0".to_string() } else { format!("-{}", k) }, next));
+                }
+                t.push_str("}\n");
+                mk(t.into_bytes(), &mut out, "stress_cyclic_tree");
+            }
             {
                 let mut t = String::new();
                 for k in 0..60_000 {
@@ -453,6 +481,11 @@ pub fn enumerate_singles(b: &Base, seed: u64, thorough: bool) -> Vec<Fault> {
             out.push(sp("non_utf8", l.value_start, l.value_start, &[b]));
         }
         out.push(sp("non_utf8", l.start, l.start + 1, &[0xfe]));
+        // valid multi-byte UTF-8 in keys and values
+        out.push(sp("unicode_value", l.value_start, l.value_start, "\u{e9}".as_bytes()));
+        out.push(sp("unicode_value", l.end.saturating_sub(1), l.end.saturating_sub(1), "\u{65e5}\u{672c}".as_bytes()));
+        out.push(sp("unicode_key", l.start + 1, l.start + 1, "\u{200b}".as_bytes()));
+        out.push(sp("unicode_key", l.value_start.saturating_sub(1), l.value_start.saturating_sub(1), "\u{ff3d}".as_bytes()));
     }
 
     // --- tokens in tree text
@@ -521,6 +554,8 @@ pub fn enumerate_singles(b: &Base, seed: u64, thorough: bool) -> Vec<Fault> {
                     }
                 }
                 sites.push(sp("tok_qs_empty", words[1].1, le, b" { }"));
+                sites.push(sp("tok_unicode", words[1].0, words[1].0, "\u{e9}".as_bytes()));
+                sites.push(sp("tok_unicode", le.saturating_sub(1), le.saturating_sub(1), "\u{65e5}".as_bytes()));
             } else if text.starts_with("{*}[") {
                 if let (Some(a), Some(e)) = (line.iter().position(|c| *c == b'['), line.iter().position(|c| *c == b']')) {
                     for rep in ["99", "-1", "0", "1", "18446744073709551615", "99999999999999999999999", "x", ""] {
